@@ -18,10 +18,17 @@ SRC = {
     "tokenrules": [P + "plugins/rule_md_0%s.py" % n for n in ("01", "04", "19", "21", "29", "30", "35", "38", "39", "48")]
                   + [P + "tokens/*.py", P + "plugin_manager/plugin_scan_context.py", P + "plugin_manager/plugin_manager.py", P + "file_scan_helper.py",
                      P + "plugin_manager/fix_token_record.py"],
+    "scanrules": [P + "plugins/rule_md_0%s.py" % n for n in ("03", "22", "24", "25", "26", "36", "40", "41", "42", "45")]
+                 + [P + "tokens/markdown_token.py", P + "tokens/setext_heading_markdown_token.py", P + "plugin_manager/rule_plugin.py",
+                    P + "plugin_manager/plugin_scan_context.py", P + "plugin_manager/plugin_manager.py", P + "general/constants.py"],
     "coalesce": [P + "coalesce/coalesce_processor.py", P + "tokens/text_markdown_token.py"],
     "leafpos": [P + "leaf_blocks/*.py", P + "general/position_marker.py", P + "container_blocks/container_block_leaf_processor.py",
                 P + "container_blocks/container_block_processor.py", P + "general/tab_helper.py", P + "tokens/markdown_token.py"],
     "bqcount": [P + "block_quotes/block_quote_count_helper.py"],
+    "inlineloop": [P + "inline/inline_processor.py", P + "inline/inline_text_block_helper.py", P + "inline/inline_line_end_helper.py",
+                   P + "inline/inline_handler_helper.py", P + "inline/inline_request.py", P + "inline/inline_response.py", P + "inline/inline_helper.py",
+                   P + "inline/inline_backslash_helper.py", P + "inline/inline_backtick_helper.py", P + "inline/inline_character_reference_helper.py",
+                   P + "inline/inline_autolink_helper.py", P + "general/parser_helper.py"],
 }
 
 
@@ -100,6 +107,27 @@ def gfm(ctx):
     return r
 
 
+def scanrules(ctx):
+    """Faithful models of ten scan-only token rules MD003 MD022 MD024 MD025 MD026 MD036 MD040 MD041 MD042 MD045 and their joint pass
+    (Verif.Props.ScanRules: scan_iff, reports_in_range, state_reset, scan_reads, faithful_eq_spec) vs the real rule classes."""
+    import scanruleslib
+    t0 = time.time()
+    cov = dict(scanruleslib.run(ctx, ctx.block_quick(SRC["scanrules"])))
+    dis, fail = cov.pop("disagreements"), cov.pop("failing_inputs")
+    for d in dis[:3]:
+        ctx.report({"scanrules_input": d.get("input"), "job": d.get("job")}, "scanrules-disagreement",
+                   {"detail": {k: str(v)[:400] for k, v in d.items()},
+                    "oracle": "real rule class through a real PluginManager (reports in order: line, column, rule, extra; exception kind; configuration; "
+                              "file B after file A) == Verif.Model.ScanRules on the abstraction of the same token stream"})
+    for d in fail[:3]:
+        ctx.report({"doc": d.get("document"), "job": d.get("job")}, "scanrules-" + str(d.get("property", "C07")).lower(),
+                   {"detail": {k: str(v)[:400] for k, v in d.items()},
+                    "oracle": "C13: the reports of file B after file A are the reports of B on rule objects that scanned nothing; C07: no exception on a parsed stream"})
+    cov["disagreements"], cov["failing_inputs"] = len(dis), len(fail)
+    _store(ctx, "scanrules", cov, t0)
+    return cov
+
+
 def tokenrules(ctx):
     """Faithful models of nine token-driven fix-capable rules + the joint pass (Verif.Props.TokenRules) vs the real rule classes."""
     import tokenruleslib
@@ -118,4 +146,26 @@ def tokenrules(ctx):
     cov["transfer_retrigger"], cov["transfer_gaps"] = len(retr), len(gaps)
     cov["transfer_retrigger_samples"] = [{"rule": d.get("rule"), "doc": d.get("input")} for d in retr[:4]]
     _store(ctx, "tokenrules", cov, t0)
+    return cov
+
+
+def inlineloop(ctx):
+    """Faithful model of the inline dispatcher (InlineProcessor.__process_inline_text_block and the line-end / text-block helpers it calls), loop
+    theorems for EVERY handler table that meets the contract (Verif.Props.InlineLoop: terminates, total, conservation, positions_partial, order) vs
+    the real loop with the real handler table; every recorded real loop turn must be a legal model transition."""
+    import inlinelooplib
+    t0 = time.time()
+    cov = dict(inlinelooplib.run(ctx, ctx.block_quick(SRC["inlineloop"])))
+    dis, docs_ = cov.pop("disagreements"), cov.pop("failing_inputs")
+    for d in dis[:3]:
+        case = {"doc": d["document"]} if d.get("document") is not None else {"inlineloop_request": str(d.get("request", d.get("text", d)))[:400]}
+        ctx.report(case, "inlineloop-" + str(d.get("kind", "disagree")),
+                   {"detail": {k: str(v)[:400] for k, v in d.items()},
+                    "oracle": "real InlineProcessor text-block loop (tokens with kind / text fields / line / column, exception kind, every loop turn) == "
+                              "Verif.Model.InlineLoop instantiated with the recogniser models; real handler answers satisfy the contract RespOK"})
+    cov["disagreements"] = len(dis)
+    cov["excluded_point_documents"] = [{"doc": d["document"], "what": d["what"]} for d in docs_]
+    cov["excluded_point_note"] = ("documents on which the REAL positions are wrong for the reasons the excluded hypotheses of inline_loop_positions_partial name "
+                                  "(positions_excluded_multiline / positions_excluded_setext): root causes of the known family F-C05-INLINECOL; decided at document level by C05's own oracle")
+    _store(ctx, "inlineloop", cov, t0)
     return cov
